@@ -23,6 +23,7 @@ func main() {
 	r.Rule("exponent-domain run: the Fiat Mul/Square of internal/field are replaced by exponent addition/doubling and the UNMODIFIED addition-chain sources fe_invert.go and fe_expPMin3Div4.go are executed from the exponent 1; the chain has a single control path, so this one run covers it completely; the final exponent must be p-2 resp. (p-3)/4 (with Mul/Square checked on the alphabet by the main part, this extends Invert/SqrtRatio to every operand by Fermat's little theorem)")
 
 	one := big.NewInt(1)
+	mod := new(big.Int).Lsh(big.NewInt(1), 256)
 	chains := []struct {
 		name string
 		want *big.Int
@@ -58,6 +59,30 @@ func main() {
 			r.Distinct.Add(1)
 			r.Bound(fmt.Sprintf("%s_multiplications", c.name), muls)
 			r.Bound(fmt.Sprintf("%s_squarings", c.name), squares)
+
+			// Applicability (see vexpscalar): a Mul/Square chain maps the start exponent e to E*e mod 2^256.
+			linear := muls+squares > 0
+
+			for _, e := range []uint64{2, 3} {
+				xe := &field.Element{E: field.MontgomeryDomainFieldElement{e, 0, 0, 0}}
+				ze := &field.Element{E: field.MontgomeryDomainFieldElement{5, 6, 7, 8}}
+
+				if alias {
+					ze = xe
+				}
+
+				c.run(ze, xe)
+
+				w := new(big.Int).Mul(got, new(big.Int).SetUint64(e))
+				if ref.FromLimbs([4]uint64(ze.E)).Cmp(w.Mod(w, mod)) != 0 {
+					linear = false
+				}
+			}
+
+			if !linear {
+				r.Incomplete("field." + c.name + " of this tree is not a chain of Mul/Square calls (the exponent-domain run is not linear in the start exponent): the exponent-domain argument does not apply to it and this part decides nothing about it")
+				continue
+			}
 
 			if got.Cmp(c.want) != 0 || over != 0 {
 				r.Violation("field."+c.name+"/addition-chain-computes-wrong-exponent", fmt.Sprintf("alias=%v: chain computes x^%x (overflows %d), want x^%x", alias, got, over, c.want), map[string]string{"op": "chain", "name": c.name})
